@@ -17,6 +17,11 @@ CfgOk(r) ==
   /\ SwOf(r.eff) = e
   \* "z = num_planes_per_axial_pos * axial_pos_num + axial_pos_to_z_offset", and the axial middle of
   \* every bin in the data geometry's own coordinates (get_m) is where ring1 + ring2 puts it
+  \* get_phi of every view (cylindrical data without intrinsic tilt): 2^10 fixed point, +-2 for single precision
+  /\ (r.geom = "Cylindrical" /\ ~gg.tilt) =>
+       /\ Len(r.phiQ) = NumViews(cc)
+       /\ \A v \in 0..(NumViews(cc) - 1) : Abs(r.phiQ[v + 1] - 1024 * PhiQ(cc, v)) <= 2
+       /\ PhiOffsetZero(cc, gg) = (Abs(r.phiQ[1]) <= 2)
   /\ r.npprObs = gg.nppr
   /\ Len(r.axial) = Len(r.segs)
   /\ \A i \in 1..Len(r.axial) :
@@ -27,28 +32,32 @@ CfgOk(r) ==
        /\ Len(r.axial[i]) = 3 + NumAx(cc, s)
        /\ cc.uniform => \A a \in 0..(NumAx(cc, s) - 1) : r.axial[i][4 + a] = 4 * (SumOf(cc, s, a) - (cc.R - 1))
 
+\* block geometry: the bins related to a basic bin are those with that basic bin; their number is reported
+RelBlocksOk(r, checkN) ==
+  LET b == BinOfList(r.b)
+      S == { BinOfList(r.rel[i]) : i \in 1..Len(r.rel) }
+      orbit == { x \in AllBins(cur.c) : x.seg = b.seg /\ x.view = b.view /\ x.tang = b.tang /\ FindBasicBlocks(cur.c, cur.esw, x) = b }
+  IN /\ cur.ok /\ BlocksConfigOk(cur.c, cur.g) /\ FindBasicBlocks(cur.c, cur.esw, b) = b
+     /\ S = orbit /\ Cardinality(S) = Len(r.rel)
+     /\ checkN => r.n = Cardinality(orbit)
 ClassName(name) == IF name = "trivial" THEN "stir::TrivialSymmetryOperation"
                    ELSE IF name = "z_shift" THEN "stir::SymmetryOperation_PET_CartesianGrid_z_shift"
                    ELSE "stir::SymmetryOperation_PET_CartesianGrid_swap_" \o name
+\* labelOk = FALSE accepts the label of known finding C03-blocks-binlabel instead of the bin
+SymOk(r, labelOk) ==
+  LET b == BinOfList(r.b)
+      bb == FindBasicG(cur.c, cur.g, cur.esw, b)
+      op == FindOpG(cur.c, cur.g, cur.esw, b)
+  IN /\ cur.ok /\ (cur.cyl \/ BlocksConfigOk(cur.c, cur.g)) /\ InRange(cur.c, b)
+     /\ BinOfList(r.bb) = bb /\ BinOfList(r.bb2) = bb /\ r.chg = (bb # b)
+     /\ r.op = ClassName(op.name) /\ r.triv = (op.name = "trivial")
+     /\ IF labelOk THEN BinOfList(r.tb) = BinMap(op, bb)
+        ELSE ~cur.cyl /\ bb # b /\ BinOfList(r.tb) = [b EXCEPT !.ax = bb.ax + b.ax]
+     /\ << r.p1[1], r.p1[2], r.p1[3] >> = VoxMap(op, <<3, 2, 1>>)
+     /\ << r.p2[1], r.p2[2], r.p2[3] >> = VoxMap(op, <<0, 1, -2>>)
 Explains(r) ==
-  CASE r.e = "Sym" ->
-         LET b == BinOfList(r.b)
-             bb == IF cur.cyl THEN FindBasic(cur.c, cur.esw, b) ELSE FindBasicBlocks(cur.c, cur.esw, b)
-             op == IF cur.cyl THEN FindOp(cur.c, cur.g, cur.esw, b) ELSE FindOpBlocks(cur.c, cur.g, cur.esw, b)
-         IN /\ cur.ok /\ (cur.cyl \/ BlocksConfigOk(cur.c, cur.g)) /\ InRange(cur.c, b)
-            /\ BinOfList(r.bb) = bb /\ BinOfList(r.bb2) = bb /\ r.chg = (bb # b)
-            /\ r.op = ClassName(op.name) /\ r.triv = (op.name = "trivial")
-            /\ BinOfList(r.tb) = BinMap(op, bb)
-            /\ << r.p1[1], r.p1[2], r.p1[3] >> = VoxMap(op, <<3, 2, 1>>)
-            /\ << r.p2[1], r.p2[2], r.p2[3] >> = VoxMap(op, <<0, 1, -2>>)
-    [] r.e = "Rel" /\ ~cur.cyl ->
-         \* block geometry: the bins related to a basic bin are those with that basic bin; their number is reported
-         LET b == BinOfList(r.b)
-             S == { BinOfList(r.rel[i]) : i \in 1..Len(r.rel) }
-             orbit == { x \in AllBins(cur.c) : x.seg = b.seg /\ x.view = b.view /\ x.tang = b.tang /\ FindBasicBlocks(cur.c, cur.esw, x) = b }
-         IN /\ cur.ok /\ BlocksConfigOk(cur.c, cur.g) /\ FindBasicBlocks(cur.c, cur.esw, b) = b
-            /\ S = orbit /\ Cardinality(S) = Len(r.rel)
-            /\ r.n = Cardinality(orbit)
+  CASE r.e = "Sym" -> SymOk(r, TRUE)
+    [] r.e = "Rel" /\ ~cur.cyl -> RelBlocksOk(r, TRUE)
     [] r.e = "Rel" ->
          LET b == BinOfList(r.b)
              S == { BinOfList(r.rel[i]) : i \in 1..Len(r.rel) }
@@ -57,6 +66,12 @@ Explains(r) ==
             /\ SymmetricTang(cur.c) => r.n = NumRelated(cur.c, cur.esw, b)
     [] OTHER -> FALSE
 
+\* known findings C03-blocks-numrelated (num_related_bins of block geometry returns an uninitialised variable;
+\* everything else about the line holds) and C03-blocks-binlabel (the z_shift operation of block geometry adds the
+\* axial position of the bin instead of the difference to the basic bin)
+Classify(r) == IF r.e = "Rel" /\ cur.ok /\ ~cur.cyl /\ RelBlocksOk(r, FALSE) THEN "C03-blocks-numrelated"
+               ELSE IF r.e = "Sym" /\ cur.ok /\ ~cur.cyl /\ SymOk(r, FALSE) THEN "C03-blocks-binlabel"
+               ELSE "new"
 Init == l = 1 /\ cur = NoCur /\ bad = <<>>
 Next == /\ l <= Len(TraceLog)
         /\ LET r == TraceLog[l]
@@ -65,7 +80,10 @@ Next == /\ l <= Len(TraceLog)
                         THEN [ok |-> okr, c |-> CfgOf(r), g |-> GridOf(r), cyl |-> r.geom = "Cylindrical",
                               esw |-> IF okr THEN EffectiveSwitches(CfgOf(r), GridOf(r), SwOf(r.sw)) ELSE NoSym]
                         ELSE cur
-              /\ bad' = IF okr \/ Len(bad) >= 500 THEN bad ELSE Append(bad, <<l, "new">>)
+              /\ bad' = IF okr THEN bad
+                        ELSE LET cls == IF r.e = "SymCfg" THEN "new" ELSE Classify(r) IN
+                             IF Len(SelectSeq(bad, LAMBDA x : x[2] = cls)) >= (IF cls = "new" THEN 500 ELSE 20) THEN bad
+                             ELSE Append(bad, <<l, cls>>)
         /\ l' = l + 1
 Spec == Init /\ [][Next]_<<l, cur, bad>>
 
